@@ -8,7 +8,7 @@ Import ListNotations.
 Local Open Scope Z_scope.
 
 Definition bind_in (S : list Z) (m : rmsg) : Prop :=
-  match m with RBind s => incl (mids (mapping s)) S | _ => True end.
+  match m with RBind s _ => incl (mids (mapping s)) S | _ => True end.
 
 Record HI (w : world) (S : list Z) : Prop := {
   h_n : incl (mids (omap (nstorage (wn w)))) S;
@@ -128,7 +128,7 @@ Proof.
       { destruct m; cbn [rt_deliver] in D.
         - inversion D; subst; assumption.
         - inversion D; subst; assumption.
-        - destruct (deliver_bind_fact _ _ _ D) as [E _]. rewrite E. exact Hm. }
+        - destruct (deliver_bind_fact _ _ _ _ D) as [E _]. rewrite E. exact Hm. }
       destruct (chN w); constructor; cbn [wn wr chR]; assumption.
 Qed.
 
